@@ -219,6 +219,13 @@ func Atlas() []*spec.Program {
 		out = append(out, prog("a_embednoneof", append([]string{"C07"}, convProps...), baseConfig("HasEmbP"), nil, br, emb2,
 			M("HasEmbP", nil, F("Own", "string"), F("EmbP", "msg:EmbP", embed()))))
 	}
+	// --- a nullable embedded message inside a nullable embedded message
+	{
+		q := M("EmbQ", nil, F("QStr", "string"), F("QList", "int64", rep()))
+		p2 := M("EmbP2", nil, F("PStr", "string"), F("EmbQ", "msg:EmbQ", embed()))
+		out = append(out, prog("a_embednn", convProps, baseConfig("HasEmbNN"), nil, q, p2,
+			M("HasEmbNN", nil, F("Own", "string"), F("EmbP2", "msg:EmbP2", embed()))))
+	}
 	// --- embedded below the root (F7: option paths)
 	{
 		emb := M("Emb", nil, F("X", "string"), F("Y", "int32"))
@@ -247,6 +254,10 @@ func Atlas() []*spec.Program {
 		cfg.Validators = map[string][]string{"Customs.CustV": {spec.SupportPkg + `.V("custom")`}}
 		cfg.PlanModifiers = map[string][]string{"Customs.ByConfigList": {spec.SupportPkg + `.PM("custom")`}}
 		out = append(out, prog("a_custom", append([]string{"C17"}, convProps...), cfg, nil, root))
+		// a custom-type field promoted from a nullable (pointer) embedded message
+		embcu := M("EmbCu", nil, F("CuStr", "string", custom("CustomStr"), nn()), F("CuPlain", "string"))
+		out = append(out, prog("a_embedncustom", append([]string{"C17"}, convProps...), baseConfig("HasEmbCu"), nil, embcu,
+			M("HasEmbCu", nil, F("Own", "string"), F("EmbCu", "msg:EmbCu", embed()))))
 	}
 	// --- json tags and name overrides
 	{
